@@ -1,5 +1,6 @@
-// Harness for the properties that need the REAL arc process (L2): C05 (WAL crash
-// recovery), C04 (no payload crashes the server), C07 (backpressure / outages).
+// Harness for peer file replication: C25 (the puller never exposes a bad file at a
+// manifest path, never counts a missing file as present, and converges once the
+// faults stop).
 package main
 
 import (
@@ -15,10 +16,8 @@ func main() {
 	flag.String("replay", "", "replay file")
 	flag.Parse()
 	switch *prop {
-	case "C05":
-		vlib.Main("C05", "fault_enumeration", checkC05)
-	case "C04":
-		vlib.Main("C04", "exploration", checkC04)
+	case "C25":
+		vlib.Main("C25", "fault_enumeration", checkC25)
 	default:
 		fmt.Println("unknown property", *prop)
 		os.Exit(2)
